@@ -12,7 +12,7 @@ RULE = ('all vectors of length <= 4 (<= 5 thorough, and length 6 over a 6-value 
         'permutation / reshape invariance (every vector is enumerated, so every permutation is); SUM over every two-block '
         'partition; AVERAGE = SUM/COUNT; SUMPRODUCT of all pairs of equal-shape vectors (length <= 3) and of mismatched '
         'shapes. distinct_nontrivial = vectors x layouts containing at least one non-numeric cell.')
-ASSUMPTIONS = ['COUNT is judged on error-free data only (Excel\'s COUNT ignores errors; the statement\'s "first error" clause is read for SUM/AVERAGE/MIN/MAX)',
+ASSUMPTIONS = ['COUNT over data holding an error may return the number of numeric cells (Excel) or the first error (the statement\'s error clause read literally), nothing else',
                'numbers compared with relative tolerance 1e-12']
 GROUP = ('fn', 'verdict')
 
@@ -94,6 +94,14 @@ def work(job):
                     case = dict(kind='agg', fn=fn, values=list(v), layout=[r, c], formula=f)
                     if obs[0] != 'ok':
                         acc.violation(dict(case, verdict='raised', exc=obs[1]), f'{f} over {list(v)} as {r}x{c} raised {obs[1]}: {obs[2][-100:]}')
+                    elif exp is None and fn == 'COUNT':
+                        # errors present: Excel's COUNT skips them, the statement's error clause would return the first
+                        # one -- either reading is accepted, anything else (the length of the error text ...) is not
+                        if not (W.veq(obs[1], len(nums(v))) or W.veq(obs[1], first_err(v))):
+                            acc.violation(dict(case, verdict='wrong-value', observed=jsonable(obs[1]),
+                                               expected=jsonable([len(nums(v)), first_err(v)])),
+                                          f'{f} over {list(v)} laid out {r}x{c} = {W.show(obs[1])}: neither the number of numeric '
+                                          f'cells ({len(nums(v))}) nor the first error ({first_err(v)})')
                     elif exp is not None and not W.vclose(obs[1], exp, rel=1e-12, abs_=1e-12):
                         acc.violation(dict(case, verdict='wrong-value', observed=jsonable(obs[1]), expected=jsonable(exp)),
                                       f'{f} over {list(v)} laid out {r}x{c} = {W.show(obs[1])}, counting rules give {W.show(exp)}')
